@@ -66,7 +66,7 @@ CHECKS["C13"] = dict(
 
 CHECKS["C10"] = dict(
     src="harness/C10_nn.cpp",
-    cases=dict(quick=600000, thorough=6000000),
+    cases=dict(quick=400000, thorough=6000000),
     fuzz=dict(runs=6000000, maxlen=700),
     rule="Case = structure {GNAT, GNATNoThreadSafety, Linear, SqrtApprox} x GNAT parameters (degree 2..8, min/max degree, leaf size 1..8, "
          "removed-cache 1..16, rebalancing; 12% library defaults) x metric {L1, L2, Linf} x dimension 1..3 x point distribution {4-lattice "
@@ -400,7 +400,7 @@ CHECKS["C15"] = dict(
 
 CHECKS["C16"] = dict(
     src="harness/C16_constrained.cpp",
-    cases=dict(quick=2500, thorough=40000),
+    cases=dict(quick=12000, thorough=200000),
     rule="Case = manifold {sphere S^(n-1) in R^3..R^5, torus in R^3, hyperplane, sphere cut by a plane (codimension 2)} with analytic (67%) or the "
          "numeric default Jacobian x space {Projected, Atlas, TangentBundle} x tolerance 1e-7..1e-3 x delta 0.02..0.3 x lambda 1.2..5 x on-manifold pair "
          "(near: within 2 delta; independent; antipodal) built from the harness's own parameterisation x optional obstacle cap x seed. Oracle: |F(x)| <= "
@@ -415,4 +415,36 @@ CHECKS["C16"] = dict(
     level_note="Trusted: the harness's manifold parameterisations and residual evaluation. Step / reach clauses are applied to the "
                "projection- and atlas-based spaces only, as the statement says.",
     assumptions=["an ompl::Exception from sampling / interpolation / anchoring is a clean rejection (counted)"],
+)
+
+CHECKS["C19"] = dict(
+    src="harness/C19_threads.cpp",
+    flavor="tsan",
+    also=["C19P"],
+    cases=dict(quick=1200, thorough=20000),
+    rule="Part 1 (ThreadSanitizer build of the library and harness): case = operation mix {shared SpaceInformation: checkMotion + isValid on shared "
+         "states; shared thread-safe GNAT: nearest / nearestK / nearestR; RNG and StateSpace construction / destruction / naming; shared "
+         "ProblemDefinition: writers adding solutions while readers list them; terminate() from up to 4 other threads while RRT polls the "
+         "condition; logging through a shared handler} x 2..16 threads released together from a barrier x 20..400 operations per thread. Oracle: no "
+         "ThreadSanitizer report (happens-before race detection over the executed accesses), results equal the sequential answers, "
+         "getCheckedMotionCount() == threads x calls with the right valid / invalid split, no lost or unsorted solution, every log message delivered, "
+         "the planner returns after terminate(). Part 2 (ASan build, companion harness C19P = the C01 harness restricted to the planners that use "
+         "threads internally): pRRT, pSBL, CForest with 2..6 threads, PRM / PRMstar / SPARS / SPARStwo (solution-checking thread), "
+         "AnytimePathShortening, on generated C01 problems -> the complete C01 oracle on what is returned, no ASan report, no hang. Non-trivial "
+         "= (part 1) at least two threads demonstrably overlapped (a thread entered while another was active); (part 2) as C01.",
+    technique="randomized concurrent operation mixes under ThreadSanitizer + count / result oracles; threaded planners under the C01 path oracle",
+    level_text="Schedules are sampled (thread counts, operation counts, barrier release, machine load), never enumerated; ThreadSanitizer's "
+               "happens-before analysis generalises each executed access pair over all interleavings. Exploration-level, and weaker than for "
+               "the other properties: absence of a report is evidence only for the access pairs that were executed.",
+    level_note="Trusted: ThreadSanitizer (clang 14, history_size=7). Races reported inside a planner's own worker code are not part of the "
+               "documented thread-safe surface; part 2 therefore judges the threaded planners by their results (C01 oracle, ASan, watchdog), "
+               "not by TSan.",
+    assumptions=["the harness's own shared state is atomic / barrier protected (the library's IterationTerminationCondition is not used across threads)"],
+)
+CHECKS["C19P"] = dict(
+    src="harness/C01_paths.cpp",
+    cxxflags=["-DVF_C19P"],
+    registered=False,
+    cases=dict(quick=600, thorough=10000),
+    rule="companion of C19", technique="", level_text="", level_note="",
 )
